@@ -27,7 +27,7 @@ var c15extLists = [][]string{
 var c15entries = []string{"get", "extends", "import", "include", "include-computed-ctx", "include-computed-var", "exec", "includeIfExists", "exec-computed", "import-after-extends"}
 
 func c15clean(p string) bool {
-	return strings.HasPrefix(p, "/") && path.Clean(p) == p && !strings.Contains(p, "\\")
+	return strings.HasPrefix(p, "/") && path.Clean(p) == p
 }
 
 // c15canon is the independent statement of the resolution rule.
@@ -205,6 +205,14 @@ func c15run(c *fw.Ctx, idx int) {
 	}
 	if r.Intn(40) == 0 {
 		sp = []string{"", ".", "/", "..", "//"}[r.Intn(5)]
+	}
+	if r.Intn(16) == 0 {
+		// backslashes are ordinary characters of a name here (the separator is '/'): a spelling with dot segments separated
+		// by backslashes is one odd segment, it never turns into dot segments after the name was cleaned
+		sp = []string{`..\..\..\part`, `sub\..\part`, `..\part`, `.\part`, `a\b`, `\part`, `s\..\..\..\..\part`}[r.Intn(7)]
+		if r.Intn(3) == 0 {
+			sp = "/" + sp
+		}
 	}
 	cs.Spelling = sp
 	refBase := cs.RefDir + "ref"
